@@ -1,97 +1,20 @@
 /-
-Agreement theorems for the generic methods of `VersionRange` translated from the Python source of
-`univers/version_range.py` on every run: `is_star`, `invert`, `__contains__`, `from_versions`, `normalize`
-(`Univers/Gen/PyRange*.lean`) are the model's `invertRange`, `containsVersion`, `fromVersions` and `normalize`
-of `Univers/Vers/Model.lean` that the theorems of C09, C04 and C10 are about.
+Agreement theorems for `VersionRange.from_versions` and `VersionRange.normalize` as translated from
+`univers/version_range.py` on every run (`Univers/Gen/PyRangeFromVersions.lean`, `PyRangeNormalize.lean`): they are
+the model's `fromVersions` and `normalize` that the theorems of C10 are about.
 
 Versions are given already constructed: `self.version_class(text)` is Layer A's business and is read as the
 identity by the translator; the class guards (`isinstance`, `cls.scheme`) are C14's business and hold of every
 concrete range class.
 -/
-import Univers.Gen.PyRangeInvert
 import Univers.Gen.PyRangeFromVersions
 import Univers.Gen.PyRangeNormalize
-import Univers.Vers.GenContainsThm
-import Univers.Vers.GenConMethodsThm
+import Univers.Vers.GenRangeContainsThm
 
 namespace Univers.Gen.LayerB
 open Univers Univers.PyRt
 
 variable {V : Type} (o : VOps V) (perm : List (Con V) → List (Con V))
-
-/-! ### `__contains__` -/
-
-/-- **`VersionRange.__contains__` as translated is the model's `containsVersion` on the range's constraints.** -/
-theorem range_contains_eq (cs : List (Con V)) (x : V) : range_contains o perm cs x = containsVersion o x cs := by
-  unfold range_contains
-  exact contains_version_eq o perm x cs
-
-/-! ### `is_star`, `invert` -/
-
-theorem range_is_star_eq (cs : List (Con V)) :
-    range_is_star o perm cs = .ok (match cs with | [.star] => true | _ => false) := by
-  unfold range_is_star
-  match cs with
-  | [] => rfl
-  | [c] => cases c with
-    | star => rfl
-    | mk k v => cases k <;> rfl
-  | a :: b :: rest => simp
-
-theorem invert_for_eq (cs0 cs : List (Con V)) (acc : List (Option (Con V))) :
-    pyFor cs acc (range_invert_for1_body o perm cs0) (range_invert_for1_after o perm cs0)
-      = (mkRangeOfOpts o (acc ++ cs.map Con.invert) >>= fun r => .ok (some r)) := by
-  induction cs generalizing acc with
-  | nil => simp [range_invert_for1_after]
-  | cons c cs ih =>
-    simp only [pyFor_cons, range_invert_for1_body, con_invert_eq, bind, Except.bind, Step.cont_next, List.map_cons]
-    rw [ih]
-    simp [bind, Except.bind]
-
-theorem all_isSome_map_invert (cs : List (Con V)) :
-    (cs.map Con.invert).all Option.isSome = !cs.any Con.isStar := by
-  induction cs with
-  | nil => rfl
-  | cons c cs ih => cases c <;> simp [Con.invert, Con.isStar, ih]
-
-theorem filterMap_id_map_invert (cs : List (Con V)) : (cs.map Con.invert).filterMap id = cs.filterMap Con.invert := by
-  induction cs with
-  | nil => rfl
-  | cons c cs ih => cases c <;> simp [List.filterMap_cons, Con.invert, ih]
-
-/-- **`VersionRange.invert` as translated is the model's `invertRange`** (`None` for the star range, the sorted
-inverted constraints otherwise; a star among other constraints is the `TypeError` of sorting `None`). -/
-theorem range_invert_eq (cs : List (Con V)) :
-    range_invert o perm cs =
-      (match invertRange o cs with
-       | none => .ok none
-       | some (.ok r) => .ok (some r)
-       | some (.error e) => .error e) := by
-  unfold range_invert
-  simp only [range_is_star_eq, bind, Except.bind]
-  match cs with
-  | [.star] => rfl
-  | [] =>
-    simp only [Bool.false_eq_true, ↓reduceIte]
-    rw [invert_for_eq]
-    simp only [invertRange, List.map_nil, List.append_nil, mkRangeOfOpts, List.all_nil, ↓reduceIte, List.filterMap_nil,
-      List.any_nil, Bool.false_eq_true, mkRange, bind, Except.bind]
-    cases sortCons o ([] : List (Con V)) <;> rfl
-  | [.mk k v] =>
-    simp only [Bool.false_eq_true, ↓reduceIte]
-    rw [invert_for_eq]
-    simp only [invertRange, List.nil_append, mkRangeOfOpts, all_isSome_map_invert, filterMap_id_map_invert, mkRange,
-      List.any_cons, Con.isStar, List.any_nil, Bool.or_false, Bool.not_false, ↓reduceIte, Bool.false_eq_true, bind,
-      Except.bind]
-    cases sortCons o (List.filterMap Con.invert [Con.mk k v]) <;> rfl
-  | a :: b :: rest =>
-    simp only [Bool.false_eq_true, ↓reduceIte]
-    rw [invert_for_eq]
-    simp only [invertRange, List.nil_append, mkRangeOfOpts, all_isSome_map_invert, filterMap_id_map_invert, mkRange]
-    cases h : (a :: b :: rest).any Con.isStar
-    · simp only [Bool.not_false, ↓reduceIte, Bool.false_eq_true, bind, Except.bind]
-      cases sortCons o (List.filterMap Con.invert (a :: b :: rest)) <;> rfl
-    · simp [bind, Except.bind]
 
 /-! ### `from_versions` -/
 
